@@ -168,6 +168,10 @@ func (e *run) modelChecks(c Case, w *world, local, cluster Outcome, calls []clus
 			e.disagree(d, caseJSON, map[string]interface{}{"pushdown": impl, "level": i, "plan": cluster.Plan}, map[string]interface{}{"pushdown": m.Allowed, "request": req}, idx)
 		}
 	}
+	// ---- the sub-query results shipped with every statement handed to the partitions
+	if err := e.shippedCheck(c, w, calls, caseJSON, idx, propertyFailed); err != nil {
+		return err
+	}
 	// ---- the IN-subqueries the leader resolves: decision and partition-side SQL of each
 	used := make([]bool, len(calls))
 	if err := e.subQueryTie(c, chain, level, calls, used, caseJSON, idx); err != nil {
